@@ -183,7 +183,7 @@ Definition decimals_in (lo hi : N) : list (N * N) :=
                                         (N.succ x, match decimal_value x with Some v => (x, v) :: acc | None => acc end)) (lo, []))).
 
 (* case kinds: 0 option, 1 argument, 2 command option, 3 conversion, 4 conversion round trip, 5 decimal-digit table *)
-Definition run_C07 (s : sexp) : sexp :=
+Definition run_C07_one (s : sexp) : sexp :=
   match s with
   | L [A 0%Z; ln; sn; A f; d] =>
     match dec_name ln, dec_name sn, dec_dflt d with
@@ -230,4 +230,12 @@ Definition run_C07 (s : sexp) : sexp :=
     | Some lo, Some hi => L [A 0%Z; sList (fun cv => L [sN (fst cv); sN (snd cv)]) (decimals_in lo hi)]
     | _, _ => sBad end
   | _ => sBad
+  end.
+
+(* kind 6: a HISTORY of constructions in one process - the outcome of each is the outcome of that construction alone
+   (accepting or rejecting an element is a function of its own arguments, not of what was constructed before) *)
+Definition run_C07 (s : sexp) : sexp :=
+  match s with
+  | L [A 6%Z; L subs] => L [A 0%Z; L (map run_C07_one subs)]
+  | _ => run_C07_one s
   end.
